@@ -1,7 +1,7 @@
 From Coq Require Import List NArith ZArith Permutation Relations.
 From SK Require Import lib.LGraph lib.StrJoin model.C08_Model proof.C08_Spec proof.C08_Faithful proof.C08_Nauty proof.C08_SigFun proof.C08_Sound proof.C08_Invariant proof.C08_Value proof.C08_GraphSig proof.C08_Auts proof.C08_GenIdem proof.C08_Select proof.C08_Orbits.
 From SK Require Import model.C08_Digraph proof.C08_DSpec proof.C08_DSer proof.C08_DNauty proof.C08_DInvariant proof.C08_MaxDepth proof.C08_DValue proof.C08_DGraphSig proof.C08_OrbitsAut proof.C08_DAuts proof.C08_DOrbitsAut.
-From SK Require Import model.C08_Obs proof.C08_Order model.C08_Sel proof.C08_SelNauty proof.C08_SelEquiv proof.C08_MaxDepth2 proof.C08_Pattern.
+From SK Require Import model.C08_Obs proof.C08_Order model.C08_Sel proof.C08_SelNauty proof.C08_SelEquiv proof.C08_MaxDepth2 proof.C08_Pattern proof.C08_RuleJoint.
 Import ListNotations.
 
 (** 1. Faithfulness: the canonical graph is the input relabelled by a map that is injective on its nodes;
@@ -125,7 +125,10 @@ Print Assumptions C08_signature_function_nauty.
        the digest does not collide on the strings compared, and for the digest-free verdicts
        [syngraph_eqb] / [cangraph_eqb] / [synrule_eqb] of the model that the correspondence evaluates against
        the wrappers' __eq__ on every run.  A rule is modelled as its three fragment graphs (rc, left, right);
-       the decomposition of an ITS graph into them and tuple-valued ITS orders are outside the model. *)
+       the decomposition of an ITS graph into them is outside the model.
+       SynRule (audit finding A2-1): comparing the three signatures characterises three INDEPENDENT isomorphisms (the two
+       _componentwise theorems below: true, but weaker than "isomorphic content", which is ONE map for rc, left and right) -
+       see 25 for the joint statement: joint => equal is proved, equal => joint is REFUTED for the three-signature comparison. *)
 Theorem C08_value_objects_syngraph : forall (D : Type) (digest : str -> D) (g h : graph),
   wf g -> wf h -> els_ok g -> els_ok h ->
   (digest (ser_nauty g) = digest (ser_nauty h) -> ser_nauty g = ser_nauty h) ->
@@ -141,7 +144,7 @@ Theorem C08_value_objects_canonicalgraph : forall (D : Type) (digest : str -> D)
 Proof. exact cangraph_nauty. Qed.
 Print Assumptions C08_value_objects_canonicalgraph.
 
-Theorem C08_value_objects_synrule : forall (D : Type) (digest : str -> D) (rc l r rc' l' r' : graph),
+Theorem C08_value_objects_synrule_componentwise : forall (D : Type) (digest : str -> D) (rc l r rc' l' r' : graph),
   wf rc -> wf l -> wf r -> wf rc' -> wf l' -> wf r' ->
   els_ok rc -> els_ok l -> els_ok r -> els_ok rc' -> els_ok l' -> els_ok r' ->
   (forall g h, digest (ser_nauty g) = digest (ser_nauty h) -> ser_nauty g = ser_nauty h) ->
@@ -149,7 +152,7 @@ Theorem C08_value_objects_synrule : forall (D : Type) (digest : str -> D) (rc l 
    /\ digest (ser_nauty rc) = digest (ser_nauty rc')
    <-> iso_cov l l' /\ iso_cov r r' /\ iso_cov rc rc').
 Proof. exact synrule_nauty_flat. Qed.
-Print Assumptions C08_value_objects_synrule.
+Print Assumptions C08_value_objects_synrule_componentwise.
 
 Theorem C08_value_objects_model_verdicts : forall g h : graph, wf g -> wf h -> els_ok g -> els_ok h ->
   (syngraph_eqb ser_nauty g h = true <-> iso_cov g h) /\
@@ -159,12 +162,12 @@ Theorem C08_value_objects_model_verdicts : forall g h : graph, wf g -> wf h -> e
 Proof. exact vo_model_verdicts. Qed.
 Print Assumptions C08_value_objects_model_verdicts.
 
-Theorem C08_value_objects_model_synrule : forall rc l r rc' l' r' : graph,
+Theorem C08_value_objects_model_synrule_componentwise : forall rc l r rc' l' r' : graph,
   wf rc -> wf l -> wf r -> wf rc' -> wf l' -> wf r' ->
   els_ok rc -> els_ok l -> els_ok r -> els_ok rc' -> els_ok l' -> els_ok r' ->
   (synrule_eqb ser_nauty (rc, l, r) (rc', l', r') = true <-> iso_cov l l' /\ iso_cov r r' /\ iso_cov rc rc').
 Proof. exact synrule_eqb_nauty_flat. Qed.
-Print Assumptions C08_value_objects_model_synrule.
+Print Assumptions C08_value_objects_model_synrule_componentwise.
 
 (** 7. Corollary of 5 (fixed point): canonicalising a canonical graph with the exact back-end changes nothing on the
        covered attributes, and the signature of the canonical graph (what CanonicalGraph hashes) is the signature
@@ -497,3 +500,29 @@ Theorem C08_pattern_observable : forall (l : list str) (i j : nat) (s t : str),
   (nth_error (pattern [] l) i = nth_error (pattern [] l) j <-> s = t).
 Proof. exact pattern_eq_iff. Qed.
 Print Assumptions C08_pattern_observable.
+
+(** 25. SynRule and ONE bijection.  Isomorphic content of a rule = a single map f carrying left, right and reaction-centre graph
+        simultaneously.  Such rules compare equal ([synrule_eqb]: the three signatures agree) - full.  The converse is REFUTED for the
+        comparison of the three signatures of the single-sided graphs (what SynRule.__eq__ did before repair 4537ada): two double
+        bonds 1=2, 3=4 closing to the four-ring 1-2-3-4 with product-side charge +1 on {1,2} resp. {1,4}; the right fragment alone
+        has the reflection exchanging the two pairs, the reaction-centre graph (whose node attributes were the reactant side only)
+        does not see the charges, no single map works.  The repaired code signs the reaction-centre graph with both sides of
+        typesGH; that graph is outside the model and the repaired behaviour is judged by the oracle on rules built from ITS graphs
+        (case kind itsrule: one bijection preserving both sides of typesGH and the (before, after) orders). *)
+Theorem C08_value_objects_synrule_joint_complete : forall rc l r rc' l' r' : graph,
+  wf rc -> wf l -> wf r -> wf rc' -> wf l' -> wf r' ->
+  els_ok rc -> els_ok l -> els_ok r -> els_ok rc' -> els_ok l' -> els_ok r' ->
+  (exists f, inj_on f (node_ids rc) /\ inj_on f (node_ids l) /\ inj_on f (node_ids r) /\
+             geq_cov (relabel f l) l' /\ geq_cov (relabel f r) r' /\ geq_cov (relabel f rc) rc') ->
+  synrule_eqb ser_nauty (rc, l, r) (rc', l', r') = true.
+Proof. exact synrule_joint_complete_flat. Qed.
+Print Assumptions C08_value_objects_synrule_joint_complete.
+
+Theorem C08_value_objects_synrule_refuted : exists rc l r rc' l' r' : graph,
+  (wf rc /\ wf l /\ wf r /\ wf rc' /\ wf l' /\ wf r') /\
+  (els_ok rc /\ els_ok l /\ els_ok r /\ els_ok rc' /\ els_ok l' /\ els_ok r') /\
+  synrule_eqb ser_nauty (rc, l, r) (rc', l', r') = true /\
+  ~ (exists f, inj_on f (node_ids rc) /\ inj_on f (node_ids l) /\ inj_on f (node_ids r) /\
+               geq_cov (relabel f l) l' /\ geq_cov (relabel f r) r' /\ geq_cov (relabel f rc) rc').
+Proof. exact synrule_joint_refuted_flat. Qed.
+Print Assumptions C08_value_objects_synrule_refuted.
